@@ -8,6 +8,8 @@ package filterstorage
 import (
 	"context"
 	"errors"
+	"slices"
+	"strings"
 
 	"github.com/AdguardTeam/AdGuardDNS/internal/filter/internal/refreshable"
 	"github.com/AdguardTeam/AdGuardDNS/internal/filter/internal/rulelist"
@@ -39,11 +41,17 @@ func verifLoadIndex(s *Default, ctx context.Context, acceptStale bool) (*indexRe
 	seen := map[string]bool{}
 	for _, k := range verifIdxKeys {
 		f := &indexRespFilter{DownloadURL: "https://lists.example/" + k + ".txt", Key: k}
-		if k == "" {
-			f.Key, f.DownloadURL = "list_z", ""
+		if rest, ok := strings.CutPrefix(k, "!empty:"); ok {
+			f.Key, f.DownloadURL = rest, ""
+		} else if rest, ok = strings.CutPrefix(k, "!ftp:"); ok {
+			f.Key, f.DownloadURL = rest, "ftp://lists.example/"+rest+".txt"
 		}
 		resp.Filters = append(resp.Filters, f)
-		if f.validate() == nil && !seen[f.Key] {
+	}
+	// as the real loadIndex does after decoding
+	slices.SortStableFunc(resp.Filters, (*indexRespFilter).compare)
+	for _, f := range resp.Filters {
+		if f.validate() == nil && strings.HasPrefix(f.DownloadURL, "https://") && !seen[f.Key] {
 			seen[f.Key] = true
 			verifCallKeys = append(verifCallKeys, f.Key)
 		}
